@@ -199,6 +199,10 @@ type c18Scenario struct {
 	Faults       []c18Fault `json:"faults"`
 	Init         []c18Init  `json:"init"`
 	InitVersion  int64      `json:"init_version"`
+	// api mode: the cluster.Mutex call made while the api servers of the worker
+	// members are constructed fails (MustNewServer only logs that), so the
+	// servers create their mutex lazily in the first lock-taking requests
+	LazyMutex bool `json:"lazy_mutex,omitempty"`
 }
 
 var c18Names = []string{"a", "b", "c"}
@@ -341,6 +345,23 @@ func c18Gen(rng *sim.Rand, tier string) interface{} {
 	}
 	if profile == 2 {
 		c18GenFaults(rng, sc, span+200_000, rng.Pick(1, 2, 3, 4))
+	}
+	if rng.Bool(0.3) {
+		// start-up variant: lazily created server mutex, first requests overlap
+		sc.LazyMutex = true
+		same := rng.Bool(0.6)
+		for ti := range sc.Tasks {
+			t := &sc.Tasks[ti]
+			if same {
+				t.Member = 0
+			}
+			if len(t.Ops) > 0 {
+				t.Ops[0].GapUs = 0
+				if t.Ops[0].Req == "get" || t.Ops[0].Req == "list" {
+					t.Ops[0].Req = "create"
+				}
+			}
+		}
 	}
 	return sc
 }
@@ -605,12 +626,26 @@ func c18Violate(r *sim.Run, class, format string, a ...interface{}) bool {
 // observation (the api.Server gets it as its cluster.Cluster).
 type c18Cluster struct {
 	cluster.Cluster
-	e *c18Env
-	m *c18Member
+	e        *c18Env
+	m        *c18Member
+	failLeft int // Mutex() calls that fail (start-up variant)
+	created  int
 }
 
 func (c *c18Cluster) Mutex(name string) (cluster.Mutex, error) {
+	if c.failLeft > 0 {
+		c.failLeft--
+		c.e.r.Probe("cluster_mutex_failed_at_server_start")
+		return nil, fmt.Errorf("c18: cluster not ready (injected)")
+	}
+	// creating the session is a round trip to the cluster in production (the
+	// harness stubs the lease keep-alive): a scheduling point
+	c.e.r.Yield("cluster.Mutex")
 	mx, err := c.Cluster.Mutex(name)
+	c.created++
+	if c.created > 1 {
+		c.e.r.Probe("member_created_several_mutex_objects")
+	}
 	if err != nil {
 		return nil, err
 	}
@@ -798,7 +833,7 @@ func c18NewServer(cls cluster.Cluster, super *supervisor.Supervisor) (*Server, e
 	m.router.Store(chi.NewRouter())
 	s.router = m
 	if _, err := s.getMutex(); err != nil {
-		return nil, err
+		logger.Errorf("get cluster mutex %s failed: %v", lockKey, err) // as MustNewServer: only logged
 	}
 	s.cds = customdata.NewStore(cls, cls.Layout().CustomDataKindPrefix(), cls.Layout().CustomDataPrefix())
 	apis = make(map[string]*Group)
@@ -1165,7 +1200,11 @@ func c18Exec(r *sim.Run, sci interface{}) {
 			return
 		}
 		// the member's cluster, with Mutex() handing out observed mutexes
-		m.cls = &c18Cluster{Cluster: m.cls, e: e, m: m}
+		wrapped := &c18Cluster{Cluster: m.cls, e: e, m: m}
+		if sc.Mode == "api" && sc.LazyMutex && i < nm {
+			wrapped.failLeft = 1
+		}
+		m.cls = wrapped
 		if sc.Mode == "mutex" {
 			mx, err := m.cls.Mutex(lockName)
 			if err != nil {
@@ -1182,6 +1221,10 @@ func c18Exec(r *sim.Run, sci interface{}) {
 				return
 			}
 			m.srv = srv
+			if wrapped.failLeft == 0 && sc.LazyMutex && i < nm {
+				// the start-up call failed: the first requests create the mutex
+				continue
+			}
 			mx, err := srv.getMutex()
 			if err != nil {
 				r.Violate("C18.harness", "member %s: getMutex: %v", name, err)
